@@ -575,7 +575,52 @@ func init() {
 		if p := c.Prog("amd64"); p != nil {
 			// Shared(shared, secret, public): an in-place call (the output buffer is the peer value or the secret)
 			// must give the same result
+			c.Clauses = append(c.Clauses, "C06.alias: Shared and the ladder helpers read every component of an input before writing the same component of the output (in-place calls give the same result)")
 			checkAlias(c, p, "C06.alias", []string{"dh/x25519", "dh/x448", "dh/curve4q"}, 10)
+		}
+	}
+}
+
+// C13.equal: the projective / extended equality tests of the curve implementations decide on every
+// coordinate of both operands (an equality on x alone identifies P and -P, which the doubling guards
+// of the combined multiplications rely on).
+func init() {
+	prev := registry["C13"]
+	registry["C13"] = func(c *Ctx) {
+		prev(c)
+		p := c.Prog("amd64")
+		if p == nil {
+			return
+		}
+		c.Clauses = append(c.Clauses, "C13.equal: the point equality tests (P-384 Jacobian, BLS12-381 G1/G2, Goldilocks, FourQ, Ed25519) depend on every coordinate of both operands")
+		type eq struct {
+			pkg, typ, name string
+			fields        []string
+		}
+		for _, e := range []eq{
+			{"ecc/p384", "jacobianPoint", "isEqual", []string{"x", "y", "z"}},
+			{"ecc/bls12381", "G1", "IsEqual", []string{"x", "y", "z"}},
+			{"ecc/bls12381", "G2", "IsEqual", []string{"x", "y", "z"}},
+			{"ecc/goldilocks", "Point", "IsEqual", []string{"x", "y", "z"}},
+			{"ecc/fourq", "pointR1", "isEqual", []string{"X", "Y", "Z"}},
+			{"sign/ed25519", "pointR1", "isEqual", []string{"x", "y", "z"}},
+		} {
+			f := p.Func(e.pkg, e.typ, e.name)
+			if f == nil {
+				if e.pkg == "ecc/p384" {
+					c.ok("C13.equal", e.pkg+"."+e.typ+"."+e.name, "not part of this build configuration", "")
+				} else {
+					c.undecided("C13.equal", e.pkg+"."+e.typ+"."+e.name, "anchor does not resolve", "")
+				}
+				continue
+			}
+			var src []string
+			for _, par := range f.Params[:2] {
+				for _, fl := range e.fields {
+					src = append(src, "field:"+par.Name()+"."+fl)
+				}
+			}
+			c.depRule(p, "C13.equal", "the verdict depends on every coordinate of both points", f, sinkVerdict(), src...)
 		}
 	}
 }
